@@ -149,3 +149,51 @@ Example C17_legacy_refutations_concrete :
   match_def d11_def d11_log_short = MOk false /\ match_def d11_def d11_log_pointer = MOk false /\
   match_def d11_def d11_log_length = MOk false /\ validate d12_def = false /\ validate d12_def_empty = false.
 Proof. repeat split; vm_compute; reflexivity. Qed.
+
+(* ---- second tie: the decision logic as the translator reads it off the source ------------------
+   Generated/TriggerDefFuns.v is rewritten from keyperimpl/shutterservice/eventtrigger.go on every
+   check (harness/cmd/translate/gen_triggerdeffuns.go); the model's functions are proved equal to
+   the translated ones, so a change of a comparison, a constant, a cast or an op code in the
+   source breaks this obligation before any case is generated. Translated: the constants Word,
+   Version and the Op numbering; Op.Validate / NumIntArgs / NumByteArgs; LogValueRef.Validate and
+   IsTopic; ValuePredicate.Validate with validateArgNums / validateArgValues; LogPredicate.Validate
+   (32-byte rule of fix 2ce1f88); the dispatch of ValuePredicate.Match; the `continue` guards of
+   the loops of ToFilterQuery and of the duplicate check; readWordAsUint64, getOffsetDataValue
+   (fix 9dbf1bd) and GetValue with their uint64 arithmetic. *)
+From Verif Require Import Generated.TriggerDefFuns Proofs.TriggerDefFuns.
+Theorem C17_translated_trigger_logic_agrees :
+  (gen_word = 32 /\ Z.to_N gen_version = version /\ gen_ops = [0; 1; 2; 3; 4; 5])%Z /\
+  (forall op, gen_op_valid (Z.of_N op) = op_valid op) /\
+  (forall op, gen_num_int_args (Z.of_N op) = Z.of_nat (num_int_args op)) /\
+  (forall op, gen_num_byte_args (Z.of_N op) = Z.of_nat (num_byte_args op)) /\
+  (forall p, gen_is_topic (Z.of_N (p_off p)) = is_topic p) /\
+  (forall p, gen_ref_validate (p_dyn p) (Z.of_N (p_off p)) = ref_validate p) /\
+  (forall p, gen_vp_validate (Z.of_N (p_op p)) (Z.of_nat (List.length (p_ints p))) (Z.of_nat (List.length (p_bytes p)))
+                             (map arg_view (p_ints p)) = vp_validate p) /\
+  (forall p, gen_lp_validate (p_dyn p) (Z.of_N (p_off p)) (Z.of_N (p_op p)) (vp_validate p)
+                             (Z.of_nat (List.length (hd [] (p_bytes p)))) = lp_validate p) /\
+  (forall p v a b,
+     ((p_op p <= 4)%N -> exists r, p_ints p = Some a :: r) ->
+     (p_op p = 5%N -> exists r, p_bytes p = b :: r) ->
+     vp_match p v = gen_vp_match (Z.of_N (p_op p)) (cmp3 (Z.of_N (be v)) a) (bytes_eqb v b)) /\
+  (forall p, gen_filter_selects (Z.of_N (p_off p)) (Z.of_N (p_op p)) = is_topic p && (p_op p =? 5)%N) /\
+  (forall p, gen_dup_check_selects (Z.of_N (p_off p)) (Z.of_N (p_op p)) = is_topic_eq p) /\
+  (forall data start, gen_read_word_as_uint64 data start = read_word_u64 data start) /\
+  (forall p lg, gen_get_offset_data_value (Z.of_N (p_off p)) (l_data lg) = get_offset_data_value p lg) /\
+  (forall p lg, gen_get_value (p_dyn p) (Z.of_N (p_off p)) (l_topics lg) (l_data lg) = get_value p lg).
+Proof.
+  exact (conj consts_agree (conj op_valid_agrees (conj num_int_args_agrees (conj num_byte_args_agrees
+    (conj is_topic_agrees (conj ref_validate_agrees (conj vp_validate_agrees (conj lp_validate_agrees
+    (conj vp_match_agrees (conj filter_selects_agrees (conj dup_check_selects_agrees (conj read_word_agrees
+    (conj get_offset_data_value_agrees get_value_agrees))))))))))))).
+Qed.
+Print Assumptions C17_translated_trigger_logic_agrees.
+
+(* the translated functions on the running example: the dynamic reference resolves to "hello",
+   and on truncated data to nil *)
+Example C17_translated_nonvacuous :
+  gen_get_value true 5 (l_topics ex_log) (l_data ex_log) = VOk (hx "68656c6c6f") /\
+  gen_get_value true 5 [] (repeat 0%N 40) = VOk [] /\
+  gen_lp_validate false 1 5 true 31 = false /\ gen_lp_validate false 1 5 true 32 = true /\
+  gen_vp_match 1 0 false = MOk true /\ gen_vp_match 6 0 false = MErr.
+Proof. repeat split; vm_compute; reflexivity. Qed.
